@@ -111,3 +111,8 @@ Proof.
   cbn [Reply.c_rq]. change Reply.REISSUE_CAP with 3.
   destruct (len (Reply.c_rq c) <? 3); cbn [fst Reply.c_rq Reply.c_hand]; auto.
 Qed.
+
+(* the message parse generates for a re-request carries the id 0x8003: the reader routes it *)
+Lemma rereq_message_id id x : decoded_header (x_first x) -> (length (x_slots x) <= 510)%nat ->
+  m_id (p_msg (rereq_pmsg (mk_rereq id x))) = 32771.
+Proof. intros Hh Hl. rewrite (rereq_pmsg_decoded id x Hh Hl). reflexivity. Qed.
